@@ -4,7 +4,7 @@
                        pulse and every t in [0, total) the program plays  at_ pcs c t  (half-open junctions). *)
 From Coq Require Import ZArith QArith List Bool.
 Require Import QV.C01.Model QV.C01.Spec QV.C01.Proofs QV.C01.ProofsDefs QV.C01.Proofs_trafo QV.C01.Proofs_table
-        QV.C01.Proofs_comp QV.C01.Proofs_atoms QV.C01.Proofs_main.
+        QV.C01.Proofs_comp QV.C01.Proofs_atoms QV.C01.Proofs_main QV.C01.Proofs_sampling QV.C01.Proofs_leaves.
 Import ListNotations.
 Open Scope Q_scope.
 
@@ -199,3 +199,32 @@ Proof.
   - rewrite H4, H5. simpl. intro E. discriminate E.
 Qed.
 Print Assumptions C01_table_final_refuted.
+
+(* ---- to_waveform(program).get_sampled = the program meaning ---- *)
+(* any program tree whose leaves are atomic waveforms with coherent constant values (`lgood`: repetition counts >= 1,
+   no empty loop, leaves of positive duration over one channel set C): flattening of nested sequences, constant
+   folding in from_sequence / from_repetition_count, RepetitionWaveform's floor, the constant short-cut of get_sampled *)
+Theorem C01_sampling_loops : forall C prog w, lgood C prog -> to_waveform prog = Ok w ->
+  forall c t, cmem c C = true -> 0 <= t -> t < loop_dur prog -> oeq (get_sampled w c t) (play prog c t).
+Proof. exact sampling_sound. Qed.
+Print Assumptions C01_sampling_loops.
+
+(* the programs built by create_program (atoms ConstantPT / TablePT / PointPT, any composite nodes incl. nested
+   transformations and parallel channels): `_partial` because to_waveform's success and the common channel set of the
+   leaves are hypotheses (the model accepts sequences of templates with different channels, which qupulse rejects at
+   construction) *)
+Theorem C01_sampling_partial : forall p env cm prog w C,
+  simple_atoms p = true -> guard_C01_tables p (SDict env) (cm_of cm) = true ->
+  create_program p env cm None = Ok (Some prog) -> to_waveform prog = Ok w ->
+  Forall (fun x => chans_same (wchans x) C) (flatten prog) ->
+  forall c t, cmem c C = true -> 0 <= t -> t < loop_dur prog -> oeq (sampled prog c t) (play prog c t).
+Proof. exact sampling_create_program. Qed.
+Print Assumptions C01_sampling_partial.
+
+(* why C01_sampling_statement needs a well-formedness hypothesis in this model: a sequence of two templates over
+   different channels (rejected by SequencePT's constructor in qupulse) instantiates, to_waveform fails *)
+Example C01_sampling_needs_wellformed :
+  let p := PSeq [PAtom (AConst (EC 1) [(ChS 1, EC 1)]); PAtom (AConst (EC 1) [(ChS 2, EC 1)])] in
+  exists prog, create_program p [] [] None = Ok (Some prog) /\ sampled prog (ChS 1) 0 = None /\
+               play prog (ChS 1) 0 = Some 1.
+Proof. eexists. repeat split; vm_compute; reflexivity. Qed.
